@@ -105,3 +105,14 @@ def judge(part, case, resps, ctx):
         part.count("serialisations")
     part.sample({"backend": b, "type": ty, "request": case["reqs"][0], "text": r["text"], "back": r["s_rt"],
                  "expectation": "identical unit and bit-identical amount"}, limit=1)
+
+
+def post(part, env, tier, seed):
+    if tier != "thorough":
+        return
+    import miri
+    try:
+        res = miri.serde_decimal(part, seed, PID)
+        part.notes.append("miri (decimal serde text round trips incl. fpdec-core's unsafe parser): %s" % (res,))
+    except fw.Inconclusive as e:
+        part.notes.append("miri step inconclusive (sub-step only): %s" % e)
